@@ -339,6 +339,40 @@ fn unusable(ctx: &mut Ctx, rng: &mut ChaCha20Rng) {
     }
 }
 
+/// A proof made under usable parameters, presented to `open` / `check` under a key whose security level the field
+/// cannot reach (2^-lambda <= n / |F|): both must report an error, also for codewords shorter than lambda.
+fn unusable_at_open_and_check(ctx: &mut Ctx, rng: &mut ChaCha20Rng) {
+    type S = UniLigeroS;
+    let rho = [2usize, 4, 8][below(rng, 3)];
+    let wf = rng.next_u32() % 2 == 0;
+    let good = LigeroPCParams::<LFr, MtParams, ColHasher<LFr>>::new(128, rho, wf, (), (), ());
+    let sec_bad = 255 + (rng.next_u32() % 40) as usize;
+    let bad = LigeroPCParams::<LFr, MtParams, ColHasher<LFr>>::new(sec_bad, rho, wf, (), (), ());
+    let deg = range(rng, 1, 100);
+    let p: LPoly<S> = LabeledPolynomial::new("p".into(), uni_poly::<LFr>(Shape::Full, deg, rng), None, None);
+    let c = match commit::<S>(&good, std::slice::from_ref(&p), 1) {
+        Ok(c) => c,
+        Err(_) => return ctx.skipped("unusable-parameters-refused[open-check]", "commit refused under the usable key"),
+    };
+    let z = LFr::rand(rng);
+    let v = p.evaluate(&z);
+    let mut r = crate::probe::mon_rng(2);
+    let proof = match attempt(|| PcOf::<S>::open(&good, [&p], c.comms.iter(), &z, &mut crate::probe::sponge::<LFr>(b"c13u"), c.states.iter(), Some(&mut r))) {
+        Ok(p) => p,
+        Err(_) => return ctx.skipped("unusable-parameters-refused[open-check]", "open refused under the usable key"),
+    };
+    let refs: Vec<&LComm<S>> = c.comms.iter().collect();
+    if check::<S>(&good, &refs, &z, &[v], &proof, &mut crate::probe::sponge::<LFr>(b"c13u"), 2) != Out::Accept {
+        return ctx.skipped("unusable-parameters-refused[open-check]", "honest proof not accepted (reported under C01)");
+    }
+    let desc = json!({"sec_param": sec_bad, "rho_inv": rho, "well_formedness": wf, "degree": deg});
+    let o = check::<S>(&bad, &refs, &z, &[v], &proof, &mut crate::probe::sponge::<LFr>(b"c13u"), 2);
+    ctx.check(!o.is_accept(), "unusable-parameters-refused[open-check]", "check", desc.clone(), || json!({"outcome": o.json()}));
+    let mut r = crate::probe::mon_rng(2);
+    let res = attempt(|| PcOf::<S>::open(&bad, [&p], c.comms.iter(), &z, &mut crate::probe::sponge::<LFr>(b"c13u"), c.states.iter(), Some(&mut r)));
+    ctx.check(res.is_err(), "unusable-parameters-refused[open-check]", "open", desc, || json!({"outcome": "Ok(proof)"}));
+}
+
 pub fn run(ctx: &mut Ctx) {
     let n = ctx.n(16_000, 1_200_000);
     ctx.run_cases("calculate_t/bls12-381-fr", n / 2, |ctx, _i, rng| t_case::<ark_bls12_381::Fr>(ctx, "bls12-381 Fr (255 bit)", rng, false));
@@ -352,5 +386,6 @@ pub fn run(ctx: &mut Ctx) {
     ctx.run_cases("ligero-ml", m / 2, |ctx, _i, rng| ligero_ml(ctx, rng));
     ctx.run_cases("brakedown", m / 4, |ctx, _i, rng| brakedown(ctx, rng));
     ctx.run_cases("unusable", m / 2, |ctx, _i, rng| unusable(ctx, rng));
+    ctx.run_cases("unusable/open-check", m / 2, |ctx, _i, rng| unusable_at_open_and_check(ctx, rng));
     let _ = (DensePolynomial::<LFr>::zero().degree(), DenseMultilinearExtension::<LFr>::zero().num_vars);
 }
